@@ -119,6 +119,18 @@ def _sel_lift1(f: Callable[[Expr], Expr], a: Expr) -> Expr:
     return f(a)
 
 
+def _uncapture(e: Expr, arr: Arr) -> Expr:
+    """a scalar that mentions 'some row' of an array through a free index variable (a generic element: a threshold drawn
+    from the matrix, say) must not have that variable bound by the axes of an array it is combined with"""
+    if e is None:
+        return e
+    fv = sym.free_ivars(e)
+    for _sp, iv in arr.axes:
+        if iv in fv:
+            e = sym.subst_ivar(e, iv, (fresh(), 0))
+    return e
+
+
 def binop(f: Callable[[Expr, Expr], Expr], a: Val, b: Val) -> Val:
     if isinstance(a, Alt):
         return Alt([binop(f, x, b) for x in a.vals])
@@ -127,14 +139,16 @@ def binop(f: Callable[[Expr, Expr], Expr], a: Val, b: Val) -> Val:
     a2 = to_arr(a) if not isinstance(a, (Sc, Arr)) else a
     b2 = to_arr(b) if not isinstance(b, (Sc, Arr)) else b
     if isinstance(a2, (Blocks, DiagMat)) or isinstance(b2, (Blocks, DiagMat)):
-        a2 = densify(a2) if isinstance(a2, (Blocks, DiagMat)) else a2
-        b2 = densify(b2) if isinstance(b2, (Blocks, DiagMat)) else b2
+        # element-wise use of an assembled matrix: every entry keeps its (row, column) so that later row / column reads of the
+        # result still know which cell they look at
+        a2 = _positional(a2) if isinstance(a2, Blocks) else densify(a2) if isinstance(a2, DiagMat) else a2
+        b2 = _positional(b2) if isinstance(b2, Blocks) else densify(b2) if isinstance(b2, DiagMat) else b2
     if isinstance(a2, Sc) and isinstance(b2, Sc):
         return Sc(_sel_lift2(f, a2.e, b2.e))
     if isinstance(a2, Arr) and isinstance(b2, Sc):
-        return _flat_like(Arr(a2.axes, _sel_lift2(f, a2.elem, b2.e), "nd"), a2)
+        return _flat_like(Arr(a2.axes, _sel_lift2(f, a2.elem, _uncapture(b2.e, a2)), "nd"), a2)
     if isinstance(a2, Sc) and isinstance(b2, Arr):
-        return _flat_like(Arr(b2.axes, _sel_lift2(f, a2.e, b2.elem), "nd"), b2)
+        return _flat_like(Arr(b2.axes, _sel_lift2(f, _uncapture(a2.e, b2), b2.elem), "nd"), b2)
     if isinstance(a2, Arr) and isinstance(b2, Arr):
         if a2 is b2 or a2.uid == b2.uid:
             pass
@@ -170,6 +184,11 @@ def _flat_like(out: Arr, *srcs) -> Arr:
             len(x.axes) == len(out.axes) for x in srcs if isinstance(x, Arr) and getattr(x, "flat", None)):
         out.flat = flags[0]
     return out
+
+
+def _positional(v: Blocks) -> Arr:
+    r, c = fresh(), fresh()
+    return Arr([(rng(v.shape[0]), r), (rng(v.shape[1]), c)], sym.At(v.uid, v.elem_choice(), (sym.IV(r), sym.IV(c))), "nd", v.uid)
 
 
 def densify(v: Val) -> Val:
